@@ -1,8 +1,8 @@
 """C36 — token introspection endpoint enforces its guards.
 
 (a) rx : the live ``_JWS_SHAPED`` under the method ``on_post`` applies to it:
-         {three non-empty base64url segments} ⊆ L(impl) ⊆ {two non-empty segments, a possibly empty third,
-         an optional trailing newline}; decided for all strings.
+         {header.payload.signature with non-empty header and payload and a possibly EMPTY signature (unsecured JWS,
+         alg=none)} ⊆ L(impl) ⊆ {same, payload may also be empty, optional trailing newline}; decided for all strings.
 (b) xh : the real ``_TokenIntrospectionResource.on_post`` / ``_read_token`` / ``_refuse`` and
          ``_IntrospectionDisabledResource.on_post`` on fake falcon req/resp objects:
          symbolic caller (anonymous / allowlisted / not / unauthenticated-but-named), body (declared length, actual
@@ -85,8 +85,16 @@ def _dedent(src: str) -> str:
 
 
 _B64 = "[A-Za-z0-9_-]"
-SPEC_MIN = rf"{_B64}+\.{_B64}+\.{_B64}+"  # a signed JWS compact serialisation
-SPEC_MAX = rf"{_B64}+\.{_B64}+\.{_B64}*\n?"  # unsecured JWS (empty signature); Python's `$` also admits one trailing newline
+# The required language (RFC 7515 §7.1 compact serialisation BASE64URL(header) "." BASE64URL(payload) "."
+# BASE64URL(signature), as carried in a bearer JWT, RFC 7519): header and claims set are never empty; the signature
+# IS empty for an Unsecured JWS / unsecured JWT ("alg":"none", RFC 7515 §A.5, RFC 7519 §6 — "header.payload.").
+# Vouching for exactly that form is the classic alg=none confusion, so it is inside the MUST-refuse set.
+SPEC_MIN = rf"{_B64}+\.{_B64}+\.{_B64}*"
+# Over-refusal that is still "JWS-shaped": a detached-content JWS (empty payload, RFC 7515 App. F) and the one
+# trailing newline Python's `$` admits.  Anything outside SPEC_MAX must reach the resolver.
+SPEC_MAX = rf"{_B64}+\.{_B64}*\.{_B64}*\n?"
+_SPEC_MIN_RE = re.compile(SPEC_MIN, re.ASCII)
+_SPEC_MAX_RE = re.compile(SPEC_MAX, re.ASCII)
 
 
 def _replay_jws(token: str, mode: str) -> dict:
@@ -133,10 +141,10 @@ def jws_shape_language(budget: float, replay=None) -> dict:
     if val["n_disagree"]:
         return {"verdict": "ERROR", "detail": f"sre->z3 translator disagrees with the live engine: {val['disagreements']}"}
     res: dict = {"translator_validation": val}
-    r1, w1 = q.member_of_difference(lo, impl, "three non-empty base64url segments ⊆ L(_JWS_SHAPED.%s)" % mode)
+    r1, w1 = q.member_of_difference(lo, impl, "seg+ . seg+ . seg* (signed and unsecured JWS) ⊆ L(_JWS_SHAPED.%s)" % mode)
     r2, w2 = ("unsat", None)
     if r1 == "unsat":
-        r2, w2 = q.member_of_difference(impl, hi, "L(_JWS_SHAPED.%s) ⊆ seg.seg.seg? with optional trailing newline" % mode)
+        r2, w2 = q.member_of_difference(impl, hi, "L(_JWS_SHAPED.%s) ⊆ seg+ . seg* . seg* with optional trailing newline" % mode)
     res.update(queries=q.queries, discharged=q.discharged, solver_s=round(q.solver_s, 3), samples=q.log, distinct=q.discharged)
     wit = w1 if r1 == "sat" else w2 if r2 == "sat" else None
     if wit is not None:
@@ -145,7 +153,7 @@ def jws_shape_language(budget: float, replay=None) -> dict:
         return res
     if r1 == "unsat" and r2 == "unsat":
         res["verdict"] = "CONFIRMED"
-        res["note"] = "upper bound includes 'a.b.c\\n' (Python `$`): such a subject is refused as JWS-shaped — over-refusal only"
+        res["note"] = "upper bound includes 'a.b.c\\n' (Python `$`) and the detached-content form 'a..c': refused as JWS-shaped — over-refusal only"
     else:
         res.update(verdict="INCONCLUSIVE", detail="solver returned unknown")
     return res
@@ -318,7 +326,6 @@ _CALLERS = [
     AuthContext(domain="t", authenticated=True, principal=None),  # authenticated without a principal
 ]
 
-_JWS_TEST = getattr(intro._JWS_SHAPED, _regex_mode())
 _TTL_SPECIALS = [float("nan"), float("inf"), float("-inf"), 0.5, True, None, "300"]  # ttl_kind 1..7 (0 = the symbolic int)
 
 
@@ -421,7 +428,9 @@ def _replay_endpoint(args: dict) -> str | None:
     if caller != 1:
         return None if (status == 403 and not calls) else f"{what}: expected 403 without consulting the resolver, got {status} (resolver calls {len(calls)})"
     usable = not oversized and body_kind == 13 and 0 < len(token) <= _CAP_TOKEN
-    jws = usable and _JWS_TEST(token) is not None  # same oracle as the condition; its language is item jws_shape_language
+    jws = usable and _SPEC_MIN_RE.fullmatch(token) is not None  # the specification's language, not the code's regex
+    if usable and not jws and _SPEC_MAX_RE.fullmatch(token) is not None and not calls:
+        jws = True  # tolerated over-refusal (detached-content form / trailing newline)
     if not usable or jws or res_kind == 1:
         if (not usable or jws) and calls:
             return f"{what}: malformed / JWS-shaped subject reached the resolver"
@@ -486,8 +495,12 @@ def _check_table(caller: int, has_len: bool, clen: int, blen: int, body_kind: in
     )
     if not usable:
         return exc is None and len(calls) == 0 and _snapshot(resp) == _REF_404 and _REF_404[0] == 404
-    if _JWS_TEST(token) is not None:
+    # JWS shape decided by the specification's language (SPEC_MIN must be refused, SPEC_MAX may be), never by
+    # the endpoint's own pattern: an oracle that mirrors the code cannot see a pattern that drifted
+    if _SPEC_MIN_RE.fullmatch(token) is not None:
         return exc is None and len(calls) == 0 and _snapshot(resp) == _REF_404
+    if len(calls) == 0 and _SPEC_MAX_RE.fullmatch(token) is not None:
+        return exc is None and _snapshot(resp) == _REF_404
     # the resolver is consulted exactly once, with the subject credential
     if len(calls) != 1 or calls[0] != token:
         return False
